@@ -6,5 +6,7 @@ pub mod lex;
 pub mod log;
 pub mod par;
 pub mod pv;
+pub mod runx;
+pub mod spec;
 pub mod util;
 pub mod wr;
